@@ -751,7 +751,14 @@ func binary(p *Parser, left Expr) (Expr, error) {
 	}
 	opToken := *p.previous
 
-	expr, err := p.expressionWithPrec(p.rule(opToken.Tag).prec)
+	// the right operand binds tighter than the operator itself, so operators of
+	// equal precedence group left to right. assignment operators group right to left
+	prec := p.rule(opToken.Tag).prec
+	if prec > PrecAssign {
+		prec++
+	}
+
+	expr, err := p.expressionWithPrec(prec)
 	if err != nil {
 		return nil, err
 	}
